@@ -35,15 +35,15 @@ func Bubble(t *testing.T, seed uint64, f func(t *testing.T)) (infra string) {
 
 // BatchConfig is read from the environment by the test binary.
 type BatchConfig struct {
-	Prop      string
-	Tier      string
-	BaseSeed  uint64
-	Worker    int
-	Workers   int
-	Runs      int // per worker
-	WallLimit time.Duration
-	ReplayDir string
-	Out       string
+	Prop       string
+	Tier       string
+	BaseSeed   uint64
+	Worker     int
+	Workers    int
+	Runs       int // per worker
+	WallLimit  time.Duration
+	ReplayDir  string
+	Out        string
 	MaxSamples int
 }
 
@@ -58,14 +58,14 @@ func envInt(name string, def int) int {
 
 func ConfigFromEnv() BatchConfig {
 	c := BatchConfig{
-		Prop:      os.Getenv("VERIF_PROP"),
-		Tier:      os.Getenv("VERIF_TIER"),
-		Worker:    envInt("VERIF_WORKER", 0),
-		Workers:   envInt("VERIF_WORKERS", 1),
-		Runs:      envInt("VERIF_RUNS", 100),
-		WallLimit: time.Duration(envInt("VERIF_WALL_S", 60)) * time.Second,
-		ReplayDir: os.Getenv("VERIF_REPLAY_DIR"),
-		Out:       os.Getenv("VERIF_OUT"),
+		Prop:       os.Getenv("VERIF_PROP"),
+		Tier:       os.Getenv("VERIF_TIER"),
+		Worker:     envInt("VERIF_WORKER", 0),
+		Workers:    envInt("VERIF_WORKERS", 1),
+		Runs:       envInt("VERIF_RUNS", 100),
+		WallLimit:  time.Duration(envInt("VERIF_WALL_S", 60)) * time.Second,
+		ReplayDir:  os.Getenv("VERIF_REPLAY_DIR"),
+		Out:        os.Getenv("VERIF_OUT"),
 		MaxSamples: 3,
 	}
 	if c.Tier == "" {
